@@ -18,7 +18,8 @@ STRS = ["x", "a b", " lead", "trail ", "é", "日本", "=", "a=b", "a: b", "OK",
         # carriage returns and other control characters are ordinary bytes of a value, wherever they stand (the line ends at the line feed)
         "Live\r", "\r", "a\rb", "\rlead", "x\r\r", "end\t", "bell\x07", "\x7f", "nbsp\u00a0", "\u00a0", "x\u2028", "trail\u3000"]
 NAMES = ["rating", "playcount", "a b", "é", "x_y", "0"]
-TS = ["2024-01-02T03:04:05Z", "1970-01-01T00:00:00Z", "2038-12-28T23:59:59Z", "0001-02-03T00:00:00Z"]
+TS = ["2024-01-02T03:04:05Z", "1970-01-01T00:00:00Z", "2038-12-28T23:59:59Z", "0001-02-03T00:00:00Z",
+      "2024-01-02T03:04:05+02:00", "2024-01-02T03:04:05-08:00", "2024-01-02T03:04:05+00:00", "2024-01-02T03:04:05.25Z", "2024-01-02T23:30:00+05:30"]
 BOUND = {"u8": [0, 1, 100, U8], "u32": [0, 1, U32], "u64": [0, 1, 2 ** 32, U64], "usize": [0, 1, U64],
          "secs": [0, 1, 5, 4194303], "ms": [0, 1, 500, 999, 1000, 123456, 4194303999]}
 BAD_UINT = ["", "-1", "abc", "1.5", " 1", "1 ", "0x10", "١", "9" * 400, "1_0", "1e2", "+", "-", "++1", "1+", "１", "0b1", "1\t"]
